@@ -134,6 +134,11 @@ func c07Group(c *Curve, gn string, r *Rng, nRandom int) *c07G {
 	if t2 := g.findOrderTwo(r); t2.IsValid() {
 		g.pool = append(g.pool, c07Pt{"T2", t2})
 	}
+	if yfp := g.findOrdinateInBaseField(); yfp.IsValid() {
+		// a point of the twist whose ordinate lies in the base field (second coordinate of y is zero): the sign rule of the
+		// compressed form has to fall back on the first coordinate
+		g.pool = append(g.pool, c07Pt{"YFp", yfp}, c07Pt{"-YFp", neg(yfp)})
+	}
 	for {
 		x := g.RandCoord(r)
 		if method(g.curveRHS(x), "Legendre").Call(nil)[0].Int() == -1 {
@@ -142,6 +147,62 @@ func c07Group(c *Curve, gn string, r *Rng, nRandom int) *c07G {
 		}
 	}
 	return g
+}
+
+// findOrdinateInBaseField (quadratic-extension coordinates only): y = 1, 2, ... in the base field, x a cube root of
+// y^2 - b' in the extension when one exists and the 3-part of q - 1 is 3 (then a cube c has the root c^((t+1)/3) or
+// c^((2t+1)/3), q - 1 = 3t). Input construction only; the specification re-checks the point.
+func (g *c07G) findOrdinateInBaseField() reflect.Value {
+	var lv []reflect.Value
+	c07Leaves(reflect.New(g.CoordT).Elem(), &lv)
+	if len(lv) != 2 || g.C.Name == "stark-curve" {
+		return reflect.Value{}
+	}
+	if !reflect.New(g.CoordT).MethodByName("Exp").IsValid() {
+		return reflect.Value{}
+	}
+	p := g.C.Fp.Q
+	q1 := new(big.Int).Sub(new(big.Int).Mul(p, p), big.NewInt(1))
+	three := big.NewInt(3)
+	if new(big.Int).Mod(q1, three).Sign() != 0 {
+		return reflect.Value{}
+	}
+	t := new(big.Int).Div(q1, three)
+	if new(big.Int).Mod(t, three).Sign() == 0 {
+		return reflect.Value{} // 9 | q - 1: a general cube-root algorithm would be needed
+	}
+	e := new(big.Int).Add(t, big.NewInt(1))
+	if new(big.Int).Mod(e, three).Sign() != 0 {
+		e = new(big.Int).Add(new(big.Int).Lsh(t, 1), big.NewInt(1))
+	}
+	e.Div(e, three)
+	zero := reflect.New(g.CoordT)
+	bp := g.curveRHS(zero) // b' = rhs(0)
+	f := g.C.Fp
+	for k := int64(1); k < 400; k++ {
+		y := reflect.New(g.CoordT)
+		var yl []reflect.Value
+		c07Leaves(y.Elem(), &yl)
+		f.SetRaw(yl[0].Addr(), f.ToMont(big.NewInt(k)))
+		c := reflect.New(g.CoordT)
+		coordCall(c, "Square", y)
+		coordCall(c, "Sub", c, bp)
+		x := reflect.New(g.CoordT)
+		method(x, "Exp").Call([]reflect.Value{c.Elem(), reflect.ValueOf(e)})
+		chk := reflect.New(g.CoordT)
+		coordCall(chk, "Square", x)
+		coordCall(chk, "Mul", chk, x)
+		if !method(chk, "Equal").Call([]reflect.Value{c})[0].Bool() {
+			continue // c is not a cube
+		}
+		pt := g.NewAff()
+		pt.Elem().Field(0).Set(x.Elem())
+		pt.Elem().Field(1).Set(y.Elem())
+		if method(pt, "IsOnCurve").Call(nil)[0].Bool() {
+			return pt
+		}
+	}
+	return reflect.Value{}
 }
 
 // findOrderTwo looks for a point with y = 0 among the small integer abscissae (x^3 + a x + b = 0 has the root -1 for
